@@ -852,24 +852,24 @@ def _raw_generate(rng, tier):
         c = json.loads(json.dumps(c))
         c['_tags'] = ['directed']
         yield c
-    for _ in range(260 if q else 4000):
+    for _ in range(800 if q else 6000):
         m = rng.randint(2, 6)
         yield {'op': 'pav', 'votes': _appr_profile(rng, m, small=rng.random() < 0.4), 'n': rng.randint(1, m), '_tags': []}
-    for _ in range(80 if q else 1200):
+    for _ in range(250 if q else 2000):
         m = rng.randint(2, 5)
         a, b = rng.randint(1, m), rng.randint(2, m)
         calls = [a, b, a] + [rng.randint(1, m) for _ in range(rng.randint(0, 2))]
         yield {'op': 'pav_seq', 'votes': _appr_profile(rng, m, small=rng.random() < 0.4), 'calls': calls, '_tags': []}
-    for _ in range(260 if q else 4000):
+    for _ in range(800 if q else 6000):
         m = rng.randint(2, 6)
         yield {'op': 'spav', 'votes': _appr_profile(rng, m, small=rng.random() < 0.5), 'n': rng.randint(1, m), '_tags': []}
-    for op, k in (('score_agg', 250), ('score', 250), ('mj', 400), ('star', 300), ('allocated', 300)):
-        for _ in range(k if q else k * 15):
+    for op, k in (('score_agg', 700), ('score', 700), ('mj', 1000), ('star', 800), ('allocated', 800)):
+        for _ in range(k if q else k * 8):
             c = _score_case(rng, op)
             c['_tags'] = []
             yield c
     # directed random: majority-judgment ties (few grades, full ballots), equal-size and unequal-size
-    for _ in range(150 if q else 2500):
+    for _ in range(500 if q else 4000):
         m = rng.randint(2, 4)
         full = rng.random() < 0.6
         votes, seen = [], set()
@@ -1039,8 +1039,12 @@ def describe(case):
 
 REQUIRED = ['pav_eq_spec', 'pavSpec_some_iff', 'pav_returns_iff_unique_maximiser', 'pav_refuses_iff', 'pav_maximises',
             'pav_result_shape', 'pav_order_desc', 'pav_cache_independent', 'pavSeq_eq_map',
+            'pav_jr_unrepresented', 'pav_justified_representation',
             'spav_eq_spec', 'spav_round_argmax', 'spav_error_is_tie',
-            'score_aggregate_eq_spec', 'mj_median_is_lower_median', 'score_mean_exact', 'score_eq_spec']
+            'score_aggregate_eq_spec', 'mj_median_is_lower_median', 'score_mean_exact', 'score_eq_spec',
+            'mj_default_tiebreak_witness', 'mj_default_tiebreak_scale_witness', 'star_single_runoff_witness',
+            'star_boundary_tie_witness', 'star_member_dropped_witness', 'allocated_empty_ballot_witness',
+            'allocated_ballots_run_out_witness']
 UNPROVED = []
 NOT_VERIFIED = []
 RULE = ''
